@@ -87,7 +87,7 @@ ThresholdOK(s) == 1 <= s.threshold /\ s.threshold <= Cardinality(s.attesters)
 \* an attestation containing a malleated (high-s) signature: the statement forbids that it lowers the number of
 \* distinct signers, it does not demand that it be accepted (the code accepts it today; low-s enforcement is a
 \* hardening)
-MalleatedAtt(m) == "att" \in DOMAIN m /\ \E i \in DOMAIN m.att.sigs : m.att.sigs[i].enc \in {"hs01", "hs2728"}
+MalleatedAtt(m) == m.type \in {"ReceiveMessage", "ReplaceMessage", "ReplaceDepositForBurn"} /\ \E i \in DOMAIN m.att.sigs : m.att.sigs[i].enc \in {"hs01", "hs2728"}
 DontCare(m) ==
   \/ MalleatedAtt(m)
   \/ (m.type = "ReceiveMessage" /\ m.wire.k = "msg" /\ ~IsZero32(m.wire.caller) /\ m.wire.caller.hi # "z")
